@@ -21,7 +21,8 @@ RULE = ("cases: (T,dt) pairs from a grid (exact double quotient sent to the mode
         "non-trivial = distinct case whose step count or schedule exercises rounding-up, k>1, 'inf', "
         "dict/list addressing or a concrete class")
 PARTIAL = ["object aliasing (deepcopy really separates the caller's state) is decided by the oracle only",
-           "accuracy of expm in the exact evolution is by contract (validated against an eigh-based propagator)"]
+           "accuracy of expm in the exact evolution is by contract (validated against an eig-based propagator, for "
+           "Hermitian generators and for H0 - i*Gamma)"]
 ASSUMPTIONS = ["math.modf and float division are exact on the double quotient; Python dict keys are distinct"]
 
 GRID_T = [0.05, 0.1, 0.3, 0.5, 0.7, 1.0, 1.1, 1.5, 2.0, 2.3, 3.0, 4.1, 4.2, 1e-3, 0.33, 0.99, 7.0, 10.0]
@@ -95,7 +96,8 @@ def gen_cases(ctx):
             cases.append({"kind": "class", "algo": kind, "seed": rng.randrange(10 ** 9),
                           "n": rng.choice([2, 3, 3, 4]), "steps": rng.choice([2, 3, 4]),
                           "k": rng.choice([1, 2, "inf"]), "spec": rng.choice(["single", "list", "dict"]),
-                          "gauge": rng.choice([None, "start", "start", "random"])})
+                          "gauge": rng.choice([None, "start", "start", "random"]),
+                          "retime": rng.choice([None, None, None, 1, 2, 3, 5])})
     return cases
 
 
@@ -340,6 +342,14 @@ def _case_class(ctx, case):
         algo = _make(case, ttns, H, Hm, order, dims, ops, dt, T, rng, nprng)
         twin = _make(case, copy.deepcopy(snapshot), H, Hm, order, dims, ops, dt, T,
                      *(_rng_pair(case)))
+        if case.get("retime"):
+            # the step size is changed through the class's own public setter before the run: "final time T, step dt"
+            # are then T and T/m, and everything stated about dt is stated about the step size in force
+            m = case["retime"]
+            algo.set_num_time_steps_constant_final_time(m)
+            steps, dt = m, T / m
+            twin = _make(case, copy.deepcopy(snapshot), H, Hm, order, dims, ops, dt, T, *(_rng_pair(case)))
+            ctx.tally("retimed", kind)
         algo.run(evaluation_time=k, pgbar=False)
     except Exception as e:          # noqa: BLE001
         ctx.oracle_fail(case, f"{kind}: construction/run raised {type(e).__name__}: {str(e)[:200]}")
